@@ -7,7 +7,7 @@ def main():
     mod = sys.argv[1]
     importlib.import_module(mod)
     eng = Engine()
-    quals = sys.argv[2:] or list(REG.fns)
+    quals = sys.argv[2:] or [q for q, f in REG.fns.items() if not f.inline and not f.trusted]
     for q in quals:
         r = eng.verify(q)
         print('==', q, r.status, '%.2fs' % r.time, 'paths=%d' % r.paths, r.reason or '')
